@@ -164,7 +164,9 @@ RAPF = z3.Function("RAPF", z3.RealSort(), z3.RealSort(), z3.RealSort(), z3.RealS
 
 
 def net_index(net, sid):
-    return z3.Select(net._station_ids_dict._v.arrs[0], sid)
+    """position of a station in the network's registration order"""
+    from pyvc import maplib
+    return maplib._kpos(net._EVSEs.keys.v.arrs[0], sid)
 
 
 def rap(s, iface, sess):
@@ -177,13 +179,6 @@ def rap(s, iface, sess):
 
 def rapf_def(a, b, v, p):
     return RAPF(a, b, v, p) == (a - b) * 1000 / v * 60 / p
-
-
-REG.contract(
-    IFACE + "remaining_amp_periods", params=dict(self=Ref("Interface"), ev=Ref("SessionInfo")), ret=Real, modifies=[],
-    assumed="not yet verified from its body (Interface._infrastructure_info builds an InfrastructureInfo from numpy arrays): the result is the "
-            "session's remaining demand converted with the voltage of its station and the simulation period",
-    ensures=[C("C07.remaining_amp_periods", lambda old, new, ret: ret == rap(old, old.self, old.ev))])
 
 
 def infra_wf(s, inf):
@@ -219,6 +214,21 @@ def sessions_ok(s, q, inf, name="so"):
                                          e.min_rates.len >= 1, e.max_rates.len >= 1)), patterns=[z3.Select(q.v.arrs[0], j)]),
                FA([j, j2], z3.Implies(z3.And(j >= 0, j < j2, j2 < q.len), e.station_id != e2.station_id),
                   patterns=[z3.MultiPattern(z3.Select(q.v.arrs[0], j), z3.Select(q.v.arrs[0], j2))]))
+
+
+def iface_ok(s, iface, q, name="io"):
+    """the interface sits on a well-formed network that knows every listed session's station, with non-zero voltages and period"""
+    from .network import net_wf
+    from .feasibility import net_shapes
+    net = iface._simulator.network
+    n = net._EVSEs.keys.len
+    j = z3.Int("j!" + name)
+    e = sess_at(s, q, j)
+    return And(net_wf(s, net), net_shapes(s, net), net.max_pilot_signals.len == n, net.min_pilot_signals.len == n, net.allowable_rates.len == n,
+               net.is_continuous.len == n, net._voltages.len == n, net._phase_angles.len == n, iface._simulator.period != 0,
+               FA([j], z3.Implies(z3.And(j >= 0, j < q.len),
+                                  z3.And(z3.Select(net._EVSEs._v.dom, e.station_id), ty.sel(net._voltages.v.arrs[0], net_index(net, e.station_id)) != 0)),
+                  patterns=[z3.Select(q.v.arrs[0], j)]))
 
 
 def lb_of(sess):
@@ -281,6 +291,7 @@ def _sa_loop0_inv(s):
     return [
         ("queue_is_a_valid_session_list", sessions_ok(s, q, inf, "q0")),
         ("queue_is_preprocessed", preprocessed(s, q, inf, s.self._interface, "q0p")),
+        ("queue_stations_known_to_the_network", iface_ok(s, s.self._interface, q, "q0i")),
         ("length", sch.len == inf.station_ids.len),
         ("served_sessions_at_their_lower_bound", FA([j], z3.Implies(z3.And(j >= 0, j < s._k),
                                                                    z3.Select(sch.v.arrs[0], st_index(inf, e.station_id)) == lb_of(e)),
@@ -299,6 +310,7 @@ def _sa_loop1_inv(s):
     return [
         ("queue_is_a_valid_session_list", sessions_ok(s, q, inf, "q1")),
         ("queue_is_preprocessed", preprocessed(s, q, inf, iface, "q1p")),
+        ("queue_stations_known_to_the_network", iface_ok(s, iface, q, "q1i")),
         ("length", sch.len == inf.station_ids.len),
         ("C07.feasible_after_every_grant", feas(sch, inf)),
         ("pending_sessions_at_their_lower_bound", FA([j], z3.Implies(z3.And(j >= s._k, j < q.len), val == lb), patterns=[z3.Select(q.v.arrs[0], j)])),
@@ -378,12 +390,15 @@ def all_levels_sorted(inf):
 REG.contract(
     SA + "sorting_algorithm",
     params=dict(self=Ref("SortedSchedulingAlgo"), active_sessions=Seq(Ref("SessionInfo")), infrastructure=Ref("InfrastructureInfo")),
-    ret=Seq(Real), modifies=[],
+    ret=Seq(Real),
+    modifies=[("InfrastructureInfo." + f, "FRESH") for f in ("constraint_matrix", "constraint_limits", "phases", "voltages", "constraint_ids", "station_ids",
+                                                              "_station_ids_dict", "max_pilot", "min_pilot", "allowable_pilots", "is_continuous")] + ["alloc"],
     requires=[C("interface_registered", lambda s: Not(IsNone(s.self._interface))),
               C("infrastructure_wf", lambda s: infra_wf(s, s.infrastructure)),
               C("levels_sorted", lambda s: all_levels_sorted(s.infrastructure)),
               C("sessions", lambda s: sessions_ok(s, s.active_sessions, s.infrastructure)),
-              C("preprocessed", lambda s: preprocessed(s, s.active_sessions, s.infrastructure, s.self._interface))],
+              C("preprocessed", lambda s: preprocessed(s, s.active_sessions, s.infrastructure, s.self._interface)),
+              C("interface", lambda s: iface_ok(s, s.self._interface, s.active_sessions))],
     raises=[RaiseSpec("ValueError", lambda s: lower_bound_vector_infeasible(s, s.active_sessions, s.infrastructure), iff=False, unchanged=True)],
     ensures=[C("greedy", _sa_post, props=("C07",))],
     loops={0: LoopSpec(invariant=_sa_loop0_inv),
@@ -400,12 +415,6 @@ def net_max_pilot(s, iface, station):
     return z3.Select(net.max_pilot_signals.v.arrs[0], net_index(net, station))
 
 
-REG.contract(
-    IFACE + "max_pilot_signal", params=dict(self=Ref("Interface"), station_id=Id), ret=Real, modifies=[],
-    assumed="not yet verified from its body (Interface._infrastructure_info): the result is the network's cached maximum pilot of that station",
-    ensures=[C("C05.max_pilot_signal", lambda old, new, ret: ret == net_max_pilot(old, old.self, old.station_id))])
-
-
 def ordered_by(old, ret, key, decreasing=False):
     i, j = z3.Int("i!ord"), z3.Int("j!ord")
     ki, kj = key(sess_at(old, ret, i)), key(sess_at(old, ret, j))
@@ -415,7 +424,9 @@ def ordered_by(old, ret, key, decreasing=False):
 
 def _sort_contract(name, key, decreasing, requires=()):
     REG.contract(
-        SORTMOD + name, params=dict(evs=Seq(Ref("SessionInfo")), iface=Ref("Interface")), ret=Seq(Ref("SessionInfo")), modifies=[],
+        SORTMOD + name, params=dict(evs=Seq(Ref("SessionInfo")), iface=Ref("Interface")), ret=Seq(Ref("SessionInfo")),
+        modifies=[("InfrastructureInfo." + f, "FRESH") for f in ("constraint_matrix", "constraint_limits", "phases", "voltages", "constraint_ids", "station_ids",
+                                                                  "_station_ids_dict", "max_pilot", "min_pilot", "allowable_pilots", "is_continuous")] + ["alloc"],
         requires=list(requires),
         ensures=[C("C08.permutation_of_the_sessions", lambda old, new, ret: is_permutation(ret, old.evs)),
                  C("C08.priority_order", lambda old, new, ret: ordered_by(old, ret, lambda e: key(old, e), decreasing))])
@@ -441,5 +452,5 @@ def max_pilots_nonzero(s):
 _sort_contract("first_come_first_served", lambda s, e: e.arrival, False)
 _sort_contract("last_come_first_served", lambda s, e: e.arrival, True)
 _sort_contract("earliest_deadline_first", lambda s, e: e.estimated_departure, False)
-_sort_contract("least_laxity_first", laxity_key, False, requires=[C("max_pilot_nonzero", max_pilots_nonzero)])
-_sort_contract("largest_remaining_processing_time", rpt_key, True, requires=[C("max_pilot_nonzero", max_pilots_nonzero)])
+_sort_contract("least_laxity_first", laxity_key, False, requires=[C("max_pilot_nonzero", max_pilots_nonzero), C("interface", lambda s: iface_ok(s, s.iface, s.evs))])
+_sort_contract("largest_remaining_processing_time", rpt_key, True, requires=[C("max_pilot_nonzero", max_pilots_nonzero), C("interface", lambda s: iface_ok(s, s.iface, s.evs))])
